@@ -1,9 +1,9 @@
 //! C19, last clause: "when several objects are linked, each relocated word holds the once-rebased address of the
-//! symbol it names". Small-scope exhaustive exploration of link scenarios for `ElfLinker` (EM_386, the
-//! relocation types the linker implements): every topology of a main program and up to two shared objects x
-//! every assignment of relocations to the relocation slots of every object. The objects are written to a
-//! scratch directory by an ELF writer that is independent of goblin; the expected image is computed from the
-//! abstract scenario and the base addresses the linker reports.
+//! symbol it names". Small-scope exhaustive exploration of link scenarios for `ElfLinker`, for the two machines
+//! whose relocations it implements (EM_386 and EM_MIPS, big and little endian): every topology of a main program
+//! and up to two shared objects x every assignment of relocations to the relocation slots of every object. The
+//! objects are written to a scratch directory by an ELF writer that is independent of goblin; the expected image is
+//! computed from the abstract scenario and the base addresses the linker reports.
 use crate::report::Acc;
 use crate::util::{guarded, panic_class};
 use crate::Ctx;
@@ -18,6 +18,7 @@ const META_VADDR: u64 = 0x8000;
 const NAMES: [&str; 3] = ["main", "libA.so", "libB.so"];
 
 pub const R_32: u8 = 1;
+pub const R_MIPS_REL32: u8 = 3;
 pub const R_GLOB_DAT: u8 = 6;
 pub const R_JMP_SLOT: u8 = 7;
 pub const R_RELATIVE: u8 = 8;
@@ -33,46 +34,158 @@ pub struct Obj {
     pub name: String,
     pub needed: Vec<String>,
     pub defs: Vec<(String, u64)>,
-    pub relocs: Vec<Reloc>, // slot k lives at DATA_VADDR + 4k
+    /// x86: slot k lives at DATA_VADDR + 4k. MIPS: R_MIPS_REL32 slots after the GOT.
+    pub relocs: Vec<Reloc>,
+    /// MIPS only: external symbols referenced through the GOT (undefined dynamic symbols)
+    pub got_syms: Vec<String>,
 }
 
 #[derive(Clone, Debug)]
 pub struct Scenario {
     pub objs: Vec<Obj>,
     pub do_relocations: bool,
+    /// None: EM_386; Some(big_endian): EM_MIPS
+    pub mips: Option<bool>,
 }
 
-fn le32(v: &mut Vec<u8>, x: u32) {
-    v.extend_from_slice(&x.to_le_bytes())
+/// What a relocated word must hold after linking.
+#[derive(Clone, Debug)]
+enum Expect {
+    /// base of the containing object + this value
+    SelfBase(u32),
+    /// once-rebased address of the named symbol
+    Symbol(String),
+    /// reserved word (GOT[0]): not compared
+    Ignore,
 }
-fn le16(v: &mut Vec<u8>, x: u16) {
-    v.extend_from_slice(&x.to_le_bytes())
+struct Site {
+    vaddr: u64,
+    expect: Expect,
+    kind: &'static str,
 }
 
-fn initial_word(slot: usize, r: &Reloc) -> u32 {
-    if r.kind == R_RELATIVE {
-        (DATA_VADDR + 0x20 + 4 * slot as u64) as u32
-    } else {
-        0
+struct Out {
+    big: bool,
+    b: Vec<u8>,
+}
+impl Out {
+    fn u32(&mut self, x: u32) {
+        if self.big {
+            self.b.extend_from_slice(&x.to_be_bytes())
+        } else {
+            self.b.extend_from_slice(&x.to_le_bytes())
+        }
+    }
+    fn u16(&mut self, x: u16) {
+        if self.big {
+            self.b.extend_from_slice(&x.to_be_bytes())
+        } else {
+            self.b.extend_from_slice(&x.to_le_bytes())
+        }
+    }
+    fn u8(&mut self, x: u8) {
+        self.b.push(x)
+    }
+    fn align(&mut self, n: usize) {
+        while self.b.len() % n != 0 {
+            self.b.push(0)
+        }
+    }
+    fn pad_to(&mut self, n: usize) {
+        while self.b.len() < n {
+            self.b.push(0)
+        }
     }
 }
 
-/// (file bytes, image at base 0: addr -> (byte, perm READ=1 WRITE=2 EXEC=4))
-fn write_obj(o: &Obj, is_main: bool) -> (Vec<u8>, BTreeMap<u64, (u8, u32)>) {
-    // data
-    let mut data: Vec<u8> = (0..DATA_SIZE).map(|k| 0x30u8.wrapping_add(k as u8)).collect();
-    for (k, r) in o.relocs.iter().enumerate() {
-        data[4 * k..4 * k + 4].copy_from_slice(&initial_word(k, r).to_le_bytes());
+fn kind_name(k: u8) -> &'static str {
+    match k {
+        R_32 => "R_386_32",
+        R_GLOB_DAT => "R_386_GLOB_DAT",
+        R_JMP_SLOT => "R_386_JMP_SLOT",
+        R_RELATIVE => "R_386_RELATIVE",
+        R_MIPS_REL32 => "R_MIPS_REL32",
+        _ => "none",
     }
-    // dynamic symbols: defined ones, then the undefined ones named by relocations
+}
+
+/// (file bytes, image at base 0: addr -> (byte, perm READ=1 WRITE=2 EXEC=4), relocation sites)
+fn write_obj(o: &Obj, is_main: bool, mips: Option<bool>) -> (Vec<u8>, BTreeMap<u64, (u8, u32)>, Vec<Site>) {
+    let big = mips.unwrap_or(false);
+    let word = |x: u32| -> [u8; 4] { if big { x.to_be_bytes() } else { x.to_le_bytes() } };
+    // dynamic symbols: defined ones, then the undefined ones (named by relocations or, on MIPS, by the GOT)
     let mut syms: Vec<(String, u64, bool)> = o.defs.iter().map(|(n, v)| (n.clone(), *v, true)).collect();
-    for r in &o.relocs {
-        if let Some(s) = &r.sym {
-            if !syms.iter().any(|(n, _, _)| n == s) {
-                syms.push((s.clone(), 0, false));
+    for s in o.relocs.iter().filter_map(|r| r.sym.as_ref()).chain(o.got_syms.iter()) {
+        if !syms.iter().any(|(n, _, _)| n == s) {
+            syms.push((s.clone(), 0, false));
+        }
+    }
+    // ---- data segment and relocation sites
+    let mut data: Vec<u8> = (0..DATA_SIZE).map(|k| 0x30u8.wrapping_add(k as u8)).collect();
+    let mut sites: Vec<Site> = Vec::new();
+    let mut rel_entries: Vec<(u32, u32)> = Vec::new(); // (r_offset, r_info) for DT_REL
+    let mut jmprel_entries: Vec<(u32, u32)> = Vec::new();
+    let sym_index = |name: &str| -> u32 { syms.iter().position(|(n, _, _)| n == name).map(|i| i as u32 + 1).unwrap_or(0) };
+    let mut put = |data: &mut Vec<u8>, slot: usize, v: u32| data[4 * slot..4 * slot + 4].copy_from_slice(&word(v));
+    let mut local_gotno = 0u32;
+    if mips.is_some() {
+        // GOT at the start of the data segment: GOT[0] reserved, GOT[1] a local address, then one entry per dynamic symbol
+        local_gotno = 2;
+        put(&mut data, 0, 0);
+        sites.push(Site { vaddr: DATA_VADDR, expect: Expect::Ignore, kind: "got-reserved" });
+        put(&mut data, 1, (DATA_VADDR + 0x24) as u32);
+        sites.push(Site { vaddr: DATA_VADDR + 4, expect: Expect::SelfBase((DATA_VADDR + 0x24) as u32), kind: "got-local" });
+        for (i, (n, v, defined)) in syms.iter().enumerate() {
+            put(&mut data, 2 + i, if *defined { *v as u32 } else { 0 });
+            sites.push(Site { vaddr: DATA_VADDR + 4 * (2 + i as u64), expect: Expect::Symbol(n.clone()), kind: if *defined { "got-global-defined" } else { "got-global-undefined" } });
+        }
+        let first = 2 + syms.len();
+        for (k, r) in o.relocs.iter().enumerate() {
+            if r.kind != R_MIPS_REL32 {
+                continue;
+            }
+            let slot = first + k;
+            let at = DATA_VADDR + 4 * slot as u64;
+            match &r.sym {
+                None => {
+                    let a = (DATA_VADDR + 0x28) as u32;
+                    put(&mut data, slot, a);
+                    sites.push(Site { vaddr: at, expect: Expect::SelfBase(a), kind: "R_MIPS_REL32-local" });
+                    rel_entries.push((at as u32, R_MIPS_REL32 as u32));
+                }
+                Some(s) => {
+                    put(&mut data, slot, 0);
+                    sites.push(Site { vaddr: at, expect: Expect::Symbol(s.clone()), kind: "R_MIPS_REL32-symbol" });
+                    rel_entries.push((at as u32, (sym_index(s) << 8) | R_MIPS_REL32 as u32));
+                }
+            }
+        }
+    } else {
+        for (k, r) in o.relocs.iter().enumerate() {
+            let at = DATA_VADDR + 4 * k as u64;
+            match r.kind {
+                R_RELATIVE => {
+                    let a = (DATA_VADDR + 0x20 + 4 * k as u64) as u32;
+                    put(&mut data, k, a);
+                    sites.push(Site { vaddr: at, expect: Expect::SelfBase(a), kind: kind_name(r.kind) });
+                    rel_entries.push((at as u32, R_RELATIVE as u32));
+                }
+                R_32 | R_GLOB_DAT | R_JMP_SLOT => {
+                    let s = r.sym.as_ref().unwrap();
+                    put(&mut data, k, 0);
+                    sites.push(Site { vaddr: at, expect: Expect::Symbol(s.clone()), kind: kind_name(r.kind) });
+                    let e = (at as u32, (sym_index(s) << 8) | r.kind as u32);
+                    if r.kind == R_JMP_SLOT {
+                        jmprel_entries.push(e)
+                    } else {
+                        rel_entries.push(e)
+                    }
+                }
+                _ => put(&mut data, k, 0),
             }
         }
     }
+    // ---- metadata
     let mut dynstr = vec![0u8];
     let mut name_off = Vec::new();
     for (n, _, _) in &syms {
@@ -86,129 +199,124 @@ fn write_obj(o: &Obj, is_main: bool) -> (Vec<u8>, BTreeMap<u64, (u8, u32)>) {
         dynstr.extend_from_slice(n.as_bytes());
         dynstr.push(0);
     }
-    let mut meta: Vec<u8> = Vec::new();
-    meta.extend_from_slice(&dynstr);
-    while meta.len() % 8 != 0 {
-        meta.push(0)
-    }
-    let dynsym_at = meta.len();
-    meta.extend_from_slice(&[0u8; 16]);
+    let mut meta = Out { big, b: Vec::new() };
+    meta.b.extend_from_slice(&dynstr);
+    meta.align(8);
+    let dynsym_at = meta.b.len();
+    meta.b.extend_from_slice(&[0u8; 16]);
     for (i, (_, v, defined)) in syms.iter().enumerate() {
-        le32(&mut meta, name_off[i]);
-        le32(&mut meta, *v as u32);
-        le32(&mut meta, 0);
-        meta.push((1 << 4) | 2); // GLOBAL FUNC
-        meta.push(0);
-        le16(&mut meta, if *defined { 1 } else { 0 });
+        meta.u32(name_off[i]);
+        meta.u32(*v as u32);
+        meta.u32(0);
+        meta.u8((1 << 4) | 2); // GLOBAL FUNC
+        meta.u8(0);
+        meta.u16(if *defined { 1 } else { 0 });
     }
-    let hash_at = meta.len();
+    let hash_at = meta.b.len();
     let nsyms = syms.len() as u32 + 1;
-    le32(&mut meta, 1);
-    le32(&mut meta, nsyms);
-    le32(&mut meta, 0);
+    meta.u32(1);
+    meta.u32(nsyms);
+    meta.u32(0);
     for _ in 0..nsyms {
-        le32(&mut meta, 0);
+        meta.u32(0);
     }
-    let sym_index = |name: &str| -> u32 { syms.iter().position(|(n, _, _)| n == name).map(|i| i as u32 + 1).unwrap_or(0) };
-    let rel_at = meta.len();
-    for (k, r) in o.relocs.iter().enumerate() {
-        if r.kind == R_JMP_SLOT || r.kind == 0 {
-            continue;
-        }
-        le32(&mut meta, (DATA_VADDR + 4 * k as u64) as u32);
-        le32(&mut meta, (r.sym.as_deref().map(sym_index).unwrap_or(0) << 8) | r.kind as u32);
+    let rel_at = meta.b.len();
+    for (off, info) in &rel_entries {
+        meta.u32(*off);
+        meta.u32(*info);
     }
-    let rel_sz = meta.len() - rel_at;
-    let jmprel_at = meta.len();
-    for (k, r) in o.relocs.iter().enumerate() {
-        if r.kind != R_JMP_SLOT {
-            continue;
-        }
-        le32(&mut meta, (DATA_VADDR + 4 * k as u64) as u32);
-        le32(&mut meta, (r.sym.as_deref().map(sym_index).unwrap_or(0) << 8) | r.kind as u32);
+    let rel_sz = meta.b.len() - rel_at;
+    let jmprel_at = meta.b.len();
+    for (off, info) in &jmprel_entries {
+        meta.u32(*off);
+        meta.u32(*info);
     }
-    let jmprel_sz = meta.len() - jmprel_at;
-    let dynamic_at = meta.len();
-    let mut dynent = |m: &mut Vec<u8>, tag: u32, val: u32| {
-        le32(m, tag);
-        le32(m, val);
+    let jmprel_sz = meta.b.len() - jmprel_at;
+    let dynamic_at = meta.b.len();
+    let mv = META_VADDR as u32;
+    let mut dynent = |m: &mut Out, tag: u32, val: u32| {
+        m.u32(tag);
+        m.u32(val);
     };
     for off in &needed_off {
         dynent(&mut meta, 1, *off); // DT_NEEDED
     }
-    dynent(&mut meta, 5, (META_VADDR as usize + 0) as u32); // DT_STRTAB
+    dynent(&mut meta, 5, mv); // DT_STRTAB
     dynent(&mut meta, 10, dynstr.len() as u32); // DT_STRSZ
-    dynent(&mut meta, 6, (META_VADDR as usize + dynsym_at) as u32); // DT_SYMTAB
+    dynent(&mut meta, 6, mv + dynsym_at as u32); // DT_SYMTAB
     dynent(&mut meta, 11, 16); // DT_SYMENT
-    dynent(&mut meta, 4, (META_VADDR as usize + hash_at) as u32); // DT_HASH
+    dynent(&mut meta, 4, mv + hash_at as u32); // DT_HASH
     if rel_sz > 0 {
-        dynent(&mut meta, 17, (META_VADDR as usize + rel_at) as u32); // DT_REL
+        dynent(&mut meta, 17, mv + rel_at as u32); // DT_REL
         dynent(&mut meta, 18, rel_sz as u32); // DT_RELSZ
         dynent(&mut meta, 19, 8); // DT_RELENT
     }
     if jmprel_sz > 0 {
-        dynent(&mut meta, 23, (META_VADDR as usize + jmprel_at) as u32); // DT_JMPREL
+        dynent(&mut meta, 23, mv + jmprel_at as u32); // DT_JMPREL
         dynent(&mut meta, 2, jmprel_sz as u32); // DT_PLTRELSZ
         dynent(&mut meta, 20, 17); // DT_PLTREL = DT_REL
     }
+    if mips.is_some() {
+        dynent(&mut meta, 3, DATA_VADDR as u32); // DT_PLTGOT
+        dynent(&mut meta, 0x7000_000a, local_gotno); // DT_MIPS_LOCAL_GOTNO
+        dynent(&mut meta, 0x7000_0011, nsyms); // DT_MIPS_SYMTABNO
+        dynent(&mut meta, 0x7000_0013, 1); // DT_MIPS_GOTSYM: every real symbol has a GOT entry
+    }
     dynent(&mut meta, 0, 0);
-    let dynamic_sz = meta.len() - dynamic_at;
-    // file
+    let dynamic_sz = meta.b.len() - dynamic_at;
+    // ---- file
     let data_off = 0x100usize;
     let meta_off = 0x200usize;
-    let mut f: Vec<u8> = Vec::new();
-    f.extend_from_slice(&[0x7f, b'E', b'L', b'F', 1, 1, 1, 0]);
-    f.extend_from_slice(&[0; 8]);
-    le16(&mut f, if is_main { 2 } else { 3 }); // ET_EXEC / ET_DYN
-    le16(&mut f, 3); // EM_386
-    le32(&mut f, 1);
-    le32(&mut f, (DATA_VADDR + 0x30) as u32); // e_entry
-    le32(&mut f, 52); // phoff
-    le32(&mut f, 0); // shoff
-    le32(&mut f, 0);
-    le16(&mut f, 52);
-    le16(&mut f, 32);
-    le16(&mut f, 3);
-    le16(&mut f, 40);
-    le16(&mut f, 0);
-    le16(&mut f, 0);
-    let mut phdr = |f: &mut Vec<u8>, ty: u32, off: usize, vaddr: u64, sz: usize, flags: u32| {
-        le32(f, ty);
-        le32(f, off as u32);
-        le32(f, vaddr as u32);
-        le32(f, vaddr as u32);
-        le32(f, sz as u32);
-        le32(f, sz as u32);
-        le32(f, flags);
-        le32(f, 4);
+    let mut f = Out { big, b: Vec::new() };
+    f.b.extend_from_slice(&[0x7f, b'E', b'L', b'F', 1, if big { 2 } else { 1 }, 1, 0]);
+    f.b.extend_from_slice(&[0; 8]);
+    f.u16(if is_main { 2 } else { 3 }); // ET_EXEC / ET_DYN
+    f.u16(if mips.is_some() { 8 } else { 3 }); // EM_MIPS / EM_386
+    f.u32(1);
+    f.u32((DATA_VADDR + 0x30) as u32); // e_entry
+    f.u32(52); // phoff
+    f.u32(0); // shoff
+    f.u32(0);
+    f.u16(52);
+    f.u16(32);
+    f.u16(3);
+    f.u16(40);
+    f.u16(0);
+    f.u16(0);
+    let mut phdr = |f: &mut Out, ty: u32, off: usize, vaddr: u64, sz: usize, flags: u32| {
+        f.u32(ty);
+        f.u32(off as u32);
+        f.u32(vaddr as u32);
+        f.u32(vaddr as u32);
+        f.u32(sz as u32);
+        f.u32(sz as u32);
+        f.u32(flags);
+        f.u32(4);
     };
     phdr(&mut f, 1, data_off, DATA_VADDR, DATA_SIZE, 6);
-    phdr(&mut f, 1, meta_off, META_VADDR, meta.len(), 4);
+    phdr(&mut f, 1, meta_off, META_VADDR, meta.b.len(), 4);
     phdr(&mut f, 2, meta_off + dynamic_at, META_VADDR + dynamic_at as u64, dynamic_sz, 4);
-    while f.len() < data_off {
-        f.push(0)
-    }
-    f.extend_from_slice(&data);
-    while f.len() < meta_off {
-        f.push(0)
-    }
-    f.extend_from_slice(&meta);
+    f.pad_to(data_off);
+    f.b.extend_from_slice(&data);
+    f.pad_to(meta_off);
+    f.b.extend_from_slice(&meta.b);
     let mut img = BTreeMap::new();
     for (k, b) in data.iter().enumerate() {
         img.insert(DATA_VADDR + k as u64, (*b, 3u32));
     }
-    for (k, b) in meta.iter().enumerate() {
+    for (k, b) in meta.b.iter().enumerate() {
         img.insert(META_VADDR + k as u64, (*b, 1u32));
     }
-    (f, img)
+    (f.b, img, sites)
 }
 
 pub fn scenario_json(s: &Scenario) -> Value {
     json!({
         "link": true,
         "do_relocations": s.do_relocations,
+        "mips": s.mips,
         "objs": s.objs.iter().map(|o| json!({
-            "name": o.name, "needed": o.needed,
+            "name": o.name, "needed": o.needed, "got_syms": o.got_syms,
             "defs": o.defs.iter().map(|(n, v)| json!([n, v])).collect::<Vec<_>>(),
             "relocs": o.relocs.iter().map(|r| json!([r.kind, r.sym])).collect::<Vec<_>>(),
         })).collect::<Vec<_>>(),
@@ -216,29 +324,22 @@ pub fn scenario_json(s: &Scenario) -> Value {
 }
 
 pub fn scenario_parse(v: &Value) -> Scenario {
+    let strs = |x: &Value| -> Vec<String> { x.as_array().map(|a| a.iter().map(|y| y.as_str().unwrap().to_string()).collect()).unwrap_or_default() };
     Scenario {
         do_relocations: v["do_relocations"].as_bool().unwrap_or(true),
+        mips: v["mips"].as_bool(),
         objs: v["objs"]
             .as_array()
             .unwrap()
             .iter()
             .map(|o| Obj {
                 name: o["name"].as_str().unwrap().to_string(),
-                needed: o["needed"].as_array().unwrap().iter().map(|x| x.as_str().unwrap().to_string()).collect(),
+                needed: strs(&o["needed"]),
+                got_syms: strs(&o["got_syms"]),
                 defs: o["defs"].as_array().unwrap().iter().map(|d| (d[0].as_str().unwrap().to_string(), d[1].as_u64().unwrap())).collect(),
                 relocs: o["relocs"].as_array().unwrap().iter().map(|r| Reloc { kind: r[0].as_u64().unwrap() as u8, sym: r[1].as_str().map(|s| s.to_string()) }).collect(),
             })
             .collect(),
-    }
-}
-
-fn kind_name(k: u8) -> &'static str {
-    match k {
-        R_32 => "R_386_32",
-        R_GLOB_DAT => "R_386_GLOB_DAT",
-        R_JMP_SLOT => "R_386_JMP_SLOT",
-        R_RELATIVE => "R_386_RELATIVE",
-        _ => "none",
     }
 }
 
@@ -253,16 +354,24 @@ struct Linked {
 
 pub fn check(acc: &mut Acc, sc: &Scenario, dir: &Path) {
     acc.count("evaluations", 1);
-    acc.count("link_scenarios", 1);
+    acc.count(if sc.mips.is_some() { "link_scenarios_mips" } else { "link_scenarios_x86" }, 1);
     let case = || scenario_json(sc);
+    let machine = match sc.mips {
+        None => "x86",
+        Some(true) => "mips",
+        Some(false) => "mipsel",
+    };
+    let big = sc.mips.unwrap_or(false);
     let mut images: BTreeMap<String, BTreeMap<u64, (u8, u32)>> = BTreeMap::new();
+    let mut all_sites: BTreeMap<String, Vec<Site>> = BTreeMap::new();
     for (i, o) in sc.objs.iter().enumerate() {
-        let (bytes, img) = write_obj(o, i == 0);
+        let (bytes, img, sites) = write_obj(o, i == 0, sc.mips);
         if std::fs::write(dir.join(&o.name), &bytes).is_err() {
             acc.note("cannot write scratch ELF files; link scenarios skipped".to_string());
             return;
         }
         images.insert(o.name.clone(), img);
+        all_sites.insert(o.name.clone(), sites);
     }
     let main_path: PathBuf = dir.join(&sc.objs[0].name);
     let do_rel = sc.do_relocations;
@@ -288,25 +397,9 @@ pub fn check(acc: &mut Acc, sc: &Scenario, dir: &Path) {
         let symbols = Loader::symbols(&linker).iter().map(|s| (s.name().to_string(), s.address())).collect();
         Ok(Linked { bases, image: overlap.map(|a| Err(format!("overlap at {:#x}", a))).unwrap_or(Ok(m)), program_entry: linker.program_entry(), entries, union_entries, symbols })
     });
-    let form = |o: &Obj, k: usize| -> String {
-        let r = &o.relocs[k];
-        let target = match &r.sym {
-            None => "none".to_string(),
-            Some(s) => {
-                let definer = sc.objs.iter().find(|x| x.defs.iter().any(|(n, _)| n == s)).map(|x| x.name.clone()).unwrap_or_default();
-                if definer == o.name {
-                    "own-symbol".to_string()
-                } else {
-                    // loaded before or after the referencing object?
-                    format!("symbol-of:{}", definer)
-                }
-            }
-        };
-        format!("{}|in:{}|{}", kind_name(r.kind), o.name, target)
-    };
     let l = match r {
         Err(p) => {
-            acc.violation(format!("C19|link|panic:{}", panic_class(&p)), format!("ElfLinker panicked: {}", p), case());
+            acc.violation(format!("C19|link|{}|panic:{}", machine, panic_class(&p)), format!("ElfLinker panicked: {}", p), case());
             return;
         }
         Ok(Err(e)) => {
@@ -318,15 +411,15 @@ pub fn check(acc: &mut Acc, sc: &Scenario, dir: &Path) {
         Ok(Ok(l)) => l,
     };
     acc.count("nontrivial", 1);
-    // every object loaded, at pairwise distinct bases, main at 0
+    // every object loaded, main at 0
     for o in &sc.objs {
         if !l.bases.contains_key(&o.name) {
-            acc.violation(format!("C19|link|object-not-loaded|{}", o.name), format!("{} is needed but not loaded: {:?}", o.name, l.bases), case());
+            acc.violation(format!("C19|link|{}|object-not-loaded|{}", machine, o.name), format!("{} is needed but not loaded: {:?}", o.name, l.bases), case());
             return;
         }
     }
     if l.bases[&sc.objs[0].name] != 0 {
-        acc.violation("C19|link|main-base".to_string(), format!("main loaded at {:#x}", l.bases[&sc.objs[0].name]), case());
+        acc.violation(format!("C19|link|{}|main-base", machine), format!("main loaded at {:#x}", l.bases[&sc.objs[0].name]), case());
     }
     // expected image
     let mut exp: BTreeMap<u64, (u8, u32)> = BTreeMap::new();
@@ -334,153 +427,207 @@ pub fn check(acc: &mut Acc, sc: &Scenario, dir: &Path) {
         let b = l.bases[&o.name];
         for (a, v) in &images[&o.name] {
             if exp.insert(a + b, *v).is_some() {
-                acc.violation("C19|link|objects-overlap".to_string(), format!("bases {:x?} make the objects overlap", l.bases), case());
+                acc.violation(format!("C19|link|{}|objects-overlap", machine), format!("bases {:x?} make the objects overlap", l.bases), case());
                 return;
             }
         }
     }
-    let mut relocated: BTreeMap<u64, (u32, String)> = BTreeMap::new();
+    let definer = |s: &str| -> Option<&Obj> { sc.objs.iter().find(|d| d.defs.iter().any(|(n, _)| n == s)) };
+    let mut relocated: BTreeMap<u64, (Option<u32>, String)> = BTreeMap::new();
     if sc.do_relocations {
         for o in &sc.objs {
             let b = l.bases[&o.name];
-            for (k, r) in o.relocs.iter().enumerate() {
-                let want: Option<u32> = match r.kind {
-                    R_RELATIVE => Some((b as u32).wrapping_add(initial_word(k, r))),
-                    R_32 | R_GLOB_DAT | R_JMP_SLOT => {
-                        let s = r.sym.as_ref().unwrap();
-                        sc.objs.iter().find_map(|d| d.defs.iter().find(|(n, _)| n == s).map(|(_, v)| (l.bases[&d.name].wrapping_add(*v)) as u32))
-                    }
-                    _ => None,
+            for site in &all_sites[&o.name] {
+                let at = b + site.vaddr;
+                let (want, target) = match &site.expect {
+                    Expect::Ignore => (None, "reserved".to_string()),
+                    Expect::SelfBase(a) => (Some((b as u32).wrapping_add(*a)), "self".to_string()),
+                    Expect::Symbol(s) => match definer(s) {
+                        Some(d) => {
+                            let v = d.defs.iter().find(|(n, _)| n == s).unwrap().1;
+                            (Some(l.bases[&d.name].wrapping_add(v) as u32), if d.name == o.name { "own-symbol".to_string() } else { format!("symbol-of:{}", d.name) })
+                        }
+                        None => continue,
+                    },
                 };
                 if let Some(w) = want {
-                    let at = b + DATA_VADDR + 4 * k as u64;
-                    for (i, byte) in w.to_le_bytes().iter().enumerate() {
+                    let bytes = if big { w.to_be_bytes() } else { w.to_le_bytes() };
+                    for (i, byte) in bytes.iter().enumerate() {
                         exp.get_mut(&(at + i as u64)).unwrap().0 = *byte;
                     }
-                    relocated.insert(at, (w, form(o, k)));
                 }
+                relocated.insert(at, (want, format!("{}|in:{}|{}", site.kind, o.name, target)));
             }
         }
     }
     match &l.image {
-        Err(e) => acc.violation("C19|link|memory|overlap".to_string(), e.clone(), case()),
+        Err(e) => acc.violation(format!("C19|link|{}|memory|overlap", machine), e.clone(), case()),
         Ok(got) => {
             // relocated words first (keyed by relocation type and where the symbol lives)
             for (at, (w, f)) in &relocated {
+                let w = match w {
+                    Some(w) => *w,
+                    None => continue,
+                };
                 let g: Vec<Option<u8>> = (0..4).map(|i| got.get(&(at + i)).map(|x| x.0)).collect();
                 if g.iter().any(|x| x.is_none()) {
-                    acc.violation(format!("C19|link|relocated-word|unmapped|{}", f), format!("word at {:#x} is not mapped", at), case());
+                    acc.violation(format!("C19|link|{}|relocated-word|unmapped|{}", machine, f), format!("word at {:#x} is not mapped", at), case());
                     continue;
                 }
-                let gw = u32::from_le_bytes([g[0].unwrap(), g[1].unwrap(), g[2].unwrap(), g[3].unwrap()]);
-                if gw != *w {
-                    acc.violation(format!("C19|link|relocated-word|wrong|{}", f), format!("word at {:#x} holds {:#x}, the once-rebased address is {:#x} (bases {:x?})", at, gw, w, l.bases), case());
+                let gb = [g[0].unwrap(), g[1].unwrap(), g[2].unwrap(), g[3].unwrap()];
+                let gw = if big { u32::from_be_bytes(gb) } else { u32::from_le_bytes(gb) };
+                if gw != w {
+                    acc.violation(format!("C19|link|{}|relocated-word|wrong|{}", machine, f), format!("word at {:#x} holds {:#x}, the once-rebased address is {:#x} (bases {:x?})", at, gw, w, l.bases), case());
                 }
             }
             // everything else
             let in_reloc = |a: u64| relocated.keys().any(|r| (*r..*r + 4).contains(&a));
             if let Some((a, _)) = got.iter().find(|(a, _)| !exp.contains_key(a)) {
-                acc.violation("C19|link|memory|extra-byte-mapped".to_string(), format!("byte mapped at {:#x} belongs to no object", a), case());
+                acc.violation(format!("C19|link|{}|memory|extra-byte-mapped", machine), format!("byte mapped at {:#x} belongs to no object", a), case());
             } else if let Some((a, _)) = exp.iter().find(|(a, _)| !got.contains_key(a)) {
-                acc.violation("C19|link|memory|byte-missing".to_string(), format!("byte at {:#x} missing", a), case());
+                acc.violation(format!("C19|link|{}|memory|byte-missing", machine), format!("byte at {:#x} missing", a), case());
             } else if let Some((a, (g, e))) = got.iter().zip(exp.iter()).filter(|(g, _)| !in_reloc(*g.0)).find(|(g, e)| g.1 != e.1).map(|(g, e)| (*g.0, (*g.1, *e.1))) {
                 let what = if g.0 != e.0 { "wrong-byte" } else { "wrong-permissions" };
-                acc.violation(format!("C19|link|memory|{}", what), format!("at {:#x}: ({:#x},{:#b}) expected ({:#x},{:#b})", a, g.0, g.1, e.0, e.1), case());
+                acc.violation(format!("C19|link|{}|memory|{}", machine, what), format!("at {:#x}: ({:#x},{:#b}) expected ({:#x},{:#b})", a, g.0, g.1, e.0, e.1), case());
             }
         }
     }
     if l.program_entry != DATA_VADDR + 0x30 {
-        acc.violation("C19|link|program-entry".to_string(), format!("{:#x} expected {:#x}", l.program_entry, DATA_VADDR + 0x30), case());
+        acc.violation(format!("C19|link|{}|program-entry", machine), format!("{:#x} expected {:#x}", l.program_entry, DATA_VADDR + 0x30), case());
     }
     if l.entries != l.union_entries {
-        acc.violation("C19|link|function-entries".to_string(), format!("{:x?} is not the union of the objects' entries {:x?}", l.entries, l.union_entries), case());
+        acc.violation(format!("C19|link|{}|function-entries", machine), format!("{:x?} is not the union of the objects' entries {:x?}", l.entries, l.union_entries), case());
     }
     for o in &sc.objs {
         for (n, v) in &o.defs {
             let want = l.bases[&o.name] + v;
             if !l.entries.contains(&want) {
-                acc.violation("C19|link|function-entries|defined-symbol-missing".to_string(), format!("{} at {:#x} is not an entry: {:x?}", n, want, l.entries), case());
+                acc.violation(format!("C19|link|{}|function-entries|defined-symbol-missing", machine), format!("{} at {:#x} is not an entry: {:x?}", n, want, l.entries), case());
             }
             if !l.symbols.contains(&(n.clone(), want)) {
-                acc.violation("C19|link|symbols|defined-symbol".to_string(), format!("{} expected at {:#x}: {:x?}", n, want, l.symbols.iter().filter(|(m, _)| m == n).collect::<Vec<_>>()), case());
+                acc.violation(format!("C19|link|{}|symbols|defined-symbol", machine), format!("{} expected at {:#x}: {:x?}", n, want, l.symbols.iter().filter(|(m, _)| m == n).collect::<Vec<_>>()), case());
             }
         }
     }
-    acc.outcome(&("linked", l.bases.len(), relocated.len(), relocated.values().map(|(w, _)| *w).collect::<Vec<_>>()));
+    acc.outcome(&("linked", machine, l.bases.len(), relocated.values().map(|(w, f)| (*w, f.clone())).collect::<Vec<_>>()));
 }
 
-/// All scenarios of the tier, in a fixed order.
-pub fn scenarios(thorough: bool) -> Vec<Scenario> {
-    // topologies: (needed lists of main, A, B; is B present)
-    let topo: Vec<(Vec<&str>, Vec<&str>, bool)> = vec![
+type Topo = (Vec<&'static str>, Vec<&'static str>, bool);
+fn topologies() -> Vec<Topo> {
+    vec![
         (vec!["libA.so"], vec![], false),
         (vec!["libA.so", "libB.so"], vec![], true),
         (vec!["libA.so"], vec!["libB.so"], true),
         (vec!["libA.so", "libB.so"], vec!["libB.so"], true),
         (vec!["libB.so", "libA.so"], vec![], true),
-    ];
-    let defs: [Vec<(&str, u64)>; 3] = [vec![("m0", 0x1024)], vec![("a0", 0x1028), ("a1", 0x102c)], vec![("b0", 0x1034)]];
-    let mut out = Vec::new();
-    for (main_needed, a_needed, has_b) in &topo {
-        let present: Vec<usize> = if *has_b { vec![0, 1, 2] } else { vec![0, 1] };
-        let mut syms: Vec<String> = Vec::new();
-        for &i in &present {
-            for (n, _) in &defs[i] {
-                syms.push(n.to_string());
+    ]
+}
+const DEFS: [&[(&str, u64)]; 3] = [&[("m0", 0x1024)], &[("a0", 0x1028), ("a1", 0x102c)], &[("b0", 0x1034)]];
+
+/// odometer over `dims`
+fn for_each_index(dims: &[usize], mut f: impl FnMut(&[usize])) {
+    let mut idx = vec![0usize; dims.len()];
+    loop {
+        f(&idx);
+        let mut k = 0;
+        loop {
+            if k == dims.len() {
+                return;
             }
+            idx[k] += 1;
+            if idx[k] < dims[k] {
+                break;
+            }
+            idx[k] = 0;
+            k += 1;
         }
-        let mut options: Vec<Option<Reloc>> = vec![None, Some(Reloc { kind: R_RELATIVE, sym: None })];
+    }
+}
+
+/// All scenarios of the tier, in a fixed order.
+pub fn scenarios(thorough: bool) -> Vec<Scenario> {
+    let mut out = Vec::new();
+    // ---- EM_386
+    for (main_needed, a_needed, has_b) in &topologies() {
+        let present: Vec<usize> = if *has_b { vec![0, 1, 2] } else { vec![0, 1] };
+        let syms: Vec<String> = present.iter().flat_map(|&i| DEFS[i].iter().map(|(n, _)| n.to_string())).collect();
+        let mut options: Vec<Reloc> = vec![Reloc { kind: 0, sym: None }, Reloc { kind: R_RELATIVE, sym: None }];
         for k in [R_GLOB_DAT, R_JMP_SLOT, R_32] {
             for s in &syms {
-                options.push(Some(Reloc { kind: k, sym: Some(s.clone()) }));
+                options.push(Reloc { kind: k, sym: Some(s.clone()) });
             }
         }
         // slots per object: quick 1/1/1, thorough 2/2/1
         let slots: Vec<usize> = present.iter().map(|&i| if thorough && i < 2 { 2 } else { 1 }).collect();
-        let total_slots: usize = slots.iter().sum();
-        let n = options.len();
-        let mut idx = vec![0usize; total_slots];
-        loop {
+        let dims: Vec<usize> = vec![options.len(); slots.iter().sum()];
+        let needed = |i: usize| -> Vec<String> {
+            match i {
+                0 => main_needed.iter().map(|s| s.to_string()).collect(),
+                1 => a_needed.iter().map(|s| s.to_string()).collect(),
+                _ => vec![],
+            }
+        };
+        let mut last = None;
+        for_each_index(&dims, |idx| {
             let mut objs = Vec::new();
             let mut p = 0;
             for (j, &i) in present.iter().enumerate() {
-                let mut relocs = Vec::new();
-                for _ in 0..slots[j] {
-                    match &options[idx[p]] {
-                        Some(r) => relocs.push(r.clone()),
-                        None => relocs.push(Reloc { kind: 0, sym: None }),
-                    }
-                    p += 1;
-                }
-                let needed: Vec<String> = match i {
+                let relocs: Vec<Reloc> = (0..slots[j]).map(|_| { p += 1; options[idx[p - 1]].clone() }).collect();
+                objs.push(Obj { name: NAMES[i].to_string(), needed: needed(i), defs: DEFS[i].iter().map(|(n, v)| (n.to_string(), *v)).collect(), relocs, got_syms: vec![] });
+            }
+            let sc = Scenario { objs, do_relocations: true, mips: None };
+            last = Some(sc.clone());
+            out.push(sc);
+        });
+        // one scenario without relocation processing
+        let mut plain = last.unwrap();
+        plain.do_relocations = false;
+        out.push(plain);
+    }
+    // ---- EM_MIPS, both byte orders: per object {no external GOT symbol, each external symbol} x
+    //      {no REL32, local REL32, REL32 naming each symbol of the link}
+    for big in [true, false] {
+        for (main_needed, a_needed, has_b) in &topologies() {
+            let present: Vec<usize> = if *has_b { vec![0, 1, 2] } else { vec![0, 1] };
+            let syms: Vec<String> = present.iter().flat_map(|&i| DEFS[i].iter().map(|(n, _)| n.to_string())).collect();
+            let mut rel_opts: Vec<Option<Reloc>> = vec![None, Some(Reloc { kind: R_MIPS_REL32, sym: None })];
+            for s in &syms {
+                rel_opts.push(Some(Reloc { kind: R_MIPS_REL32, sym: Some(s.clone()) }));
+            }
+            // per object: (got external symbol option, rel32 option); the last object only gets the GOT choice in quick
+            let mut dims = Vec::new();
+            for (j, _) in present.iter().enumerate() {
+                dims.push(syms.len() + 1);
+                dims.push(if thorough || j < 2 { rel_opts.len() } else { 1 });
+            }
+            let needed = |i: usize| -> Vec<String> {
+                match i {
                     0 => main_needed.iter().map(|s| s.to_string()).collect(),
                     1 => a_needed.iter().map(|s| s.to_string()).collect(),
                     _ => vec![],
-                };
-                objs.push(Obj { name: NAMES[i].to_string(), needed, defs: defs[i].iter().map(|(n, v)| (n.to_string(), *v)).collect(), relocs });
-            }
-            out.push(Scenario { objs, do_relocations: true });
-            // next
-            let mut k = 0;
-            loop {
-                if k == total_slots {
-                    break;
                 }
-                idx[k] += 1;
-                if idx[k] < n {
-                    break;
+            };
+            let mut last = None;
+            for_each_index(&dims, |idx| {
+                let mut objs = Vec::new();
+                for (j, &i) in present.iter().enumerate() {
+                    let own: Vec<String> = DEFS[i].iter().map(|(n, _)| n.to_string()).collect();
+                    let g = idx[2 * j];
+                    let got_syms: Vec<String> = if g == 0 || own.contains(&syms[g - 1]) { vec![] } else { vec![syms[g - 1].clone()] };
+                    if g != 0 && own.contains(&syms[g - 1]) {
+                        return; // own symbols are always in the GOT: this choice duplicates g == 0
+                    }
+                    let relocs: Vec<Reloc> = rel_opts[idx[2 * j + 1]].iter().cloned().collect();
+                    objs.push(Obj { name: NAMES[i].to_string(), needed: needed(i), defs: DEFS[i].iter().map(|(n, v)| (n.to_string(), *v)).collect(), relocs, got_syms });
                 }
-                idx[k] = 0;
-                k += 1;
-            }
-            if k == total_slots {
-                break;
-            }
+                let sc = Scenario { objs, do_relocations: true, mips: Some(big) };
+                last = Some(sc.clone());
+                out.push(sc);
+            });
+            let mut plain = last.unwrap();
+            plain.do_relocations = false;
+            out.push(plain);
         }
-        // one scenario without relocation processing
-        let mut plain = out.last().unwrap().clone();
-        plain.do_relocations = false;
-        out.push(plain);
     }
     out
 }
